@@ -89,6 +89,7 @@ class FunctionRun:
             e.assume(tr.clause(rtext))
         for atext in self.config.get('assume', []):
             e.assume(tr.clause(atext))
+        e.st.ghost['alloc_failed'] = z3.BoolVal(False)
         f.entry = e.st.copy()
         e.st.written = set()
         self.entry_info = info
